@@ -240,7 +240,7 @@ def run(res, tier, seed, pid):
         "evaluations": nops, "distinct_nontrivial": len({tuple(l) for _, l in cases if len(l) >= 6}),
         "rule": "system histories over a universe of <=4 ClusterCIDRs x <=5 nodes (pools of 1..16 blocks, single/dual stack, identical/nested/disjoint ranges, "
                 "6 selector shapes): random histories (user ops, deliveries, resyncs, relists, tombstones, fetch/run splits, scripted write outcomes ok/fail/timeout-applied/"
-                "timeout-not-applied, crashes + restarts) and 21 scenario templates with 12% noise ops, plus the committed corpus; a history is non-trivial when it is "
+                "timeout-not-applied, crashes + restarts) and 22 scenario templates with 12% noise ops, plus the committed corpus; a history is non-trivial when it is "
                 "distinct and has at least 6 ops",
         "samples": [{"case": cases[i][0], "ops": cases[i][1][:14]} for i in (0, len(cases) // 2, len(cases) - 1)],
         "distribution": stats, "timing": st, "traces_validated_against_impl": len(cases),
